@@ -13,7 +13,7 @@ def run(specs, known, signature, differential=None, jobs=None):
   """signature(spec, result) -> (sig, detail) for a sat result that replays.  Returns the solver_part dict."""
   t0 = time.time()
   out = {"violations": [], "inconclusive": [], "coverage": {}, "samples": [], "evaluations": 0, "distinct_nontrivial": 0}
-  results = check.run_all(specs, jobs)
+  results = check.run_all(specs, jobs or min(8, max(1, len(specs))))
   queries = []
   states = transitions = 0
   validated = 0
